@@ -1003,7 +1003,9 @@ def bind_stimulus(scn, db, in_names_a, rst_names, scn2):
                     if rr.random() < 0.7:
                         cur[j] = corner(rr, len(s))
             table.append(list(cur))
-        rst_tab = {d: [int(rr.random() < scn.get("p_rst", 0.02)) for _ in range(scn["ticks"])] for d in sorted(rst_names)}
+        # (a reset ends the comparison of a design with memories - listed finding C01-F12 - so those get one rarely)
+        p_rst = scn.get("p_rst", 0.02) * (0.15 if db["mems"] else 1.0)
+        rst_tab = {d: [int(rr.random() < p_rst) for _ in range(scn["ticks"])] for d in sorted(rst_names)}
         rsts_b = db.get("rsts", {})
 
         def f(k):
